@@ -36,6 +36,7 @@ type C13Case struct {
 	Skew      []string          `json:"skew,omitempty"`
 	Env       [][2]string       `json:"env,omitempty"`
 	Clock     simos.ClockPolicy `json:"clock,omitempty"`
+	Sched     uint64            `json:"schedule_seed,omitempty"` // which goroutine runs when, if the tree has any
 }
 
 func applyDiskFault(fs, before *simos.FS, f DiskFault, sector int) bool {
@@ -166,22 +167,54 @@ type libResult struct {
 
 // libDirect feeds the artefact bytes and the target to the library directly:
 // every reader, and Patch with every successfully read diff.
+// libSched seeds the goroutine scheduler for the direct library calls of the
+// case being checked.
+var libSched uint64
+
 func libDirect(artefact, target []byte) (*Violation, libResult) {
 	lr := libResult{accepted: map[string]bool{}}
 	type reader struct {
 		name string
 		f    func(string) (jd.Diff, error)
 	}
+	ncall := uint64(0)
 	call := func(name string, f func()) (v *Violation) {
-		defer func() {
-			if r := recover(); r != nil {
-				fr := simos.FirstFrame(string(debug.Stack()))
-				v = viol13("lib-panic", frameFunc(fr), "%s panicked: %v (at %s); artefact=%s target=%s", name, r, fr, show(artefact), show(target))
-			}
-		}()
+		guarded := func() {
+			defer func() {
+				if r := recover(); r != nil {
+					fr := simos.FirstFrame(string(debug.Stack()))
+					v = viol13("lib-panic", frameFunc(fr), "%s panicked: %v (at %s); artefact=%s target=%s", name, r, fr, show(artefact), show(target))
+				}
+			}()
+			f()
+		}
 		stats.LibCalls++
-		f()
-		return nil
+		ncall++
+		if simos.TreeHasGoroutines && simos.T != nil {
+			// a library that starts goroutines: the call runs under the
+			// scheduler, from the first go statement on (most calls have none)
+			simos.ArmTrip(true)
+			guarded()
+			trip := simos.Tripped()
+			simos.ArmTrip(false)
+			if !trip {
+				return v
+			}
+			v = nil
+			r := simos.RunScheduled(mix(libSched, ncall), guarded)
+			harvestSched()
+			switch {
+			case v != nil:
+			case r.Crash != nil:
+				fr := simos.FirstFrame(r.Crash.Stack)
+				v = viol13("lib-panic", frameFunc(fr), "%s: a goroutine it started panicked: %s (at %s); no caller can recover that: artefact=%s target=%s", name, r.Crash.Value, fr, show(artefact), show(target))
+			case r.Deadlock:
+				v = viol13("lib-deadlock", name, "%s never returns: every goroutine is blocked (last releases: %s); artefact=%s target=%s", name, strings.Join(lastN(r.Trace, 6), " "), show(artefact), show(target))
+			}
+			return v
+		}
+		guarded()
+		return v
 	}
 	var docs [2]jd.JsonNode // the target read as JSON and as YAML
 	for ri, rd := range []struct {
@@ -209,6 +242,15 @@ func libDirect(artefact, target []byte) (*Violation, libResult) {
 		rd := rd
 		if v := call(rd.name, func() { d, err = rd.f(string(artefact)) }); v != nil {
 			return v, lr
+		}
+		// and once more: a reader that has failed (or succeeded) once must
+		// still terminate, with the same verdict, when called again
+		var err2 error
+		if v := call(rd.name+" (second call)", func() { _, err2 = rd.f(string(artefact)) }); v != nil {
+			return v, lr
+		}
+		if (err == nil) != (err2 == nil) {
+			return viol13("lib-verdict-changes", rd.name, "%s accepted=%v the first time and accepted=%v the second time on the same text; artefact=%s", rd.name, err == nil, err2 == nil, show(artefact)), lr
 		}
 		if err != nil {
 			continue
@@ -319,7 +361,7 @@ func checkC13(c C13Case) (*Violation, []string, *caseInfo) {
 			// must report it with status 2
 			want = cliModel(p.Bin, p.Arg0, p.Argv, fs, stdinBytes(fs, p, prev))
 		}
-		res := runProc(fs, p, IOCfg{c.Sector, c.FileChunk, false, c.Env, c.Clock}, prev)
+		res := runProc(fs, p, IOCfg{c.Sector, c.FileChunk, false, c.Env, c.Clock, c.Sched}, prev)
 		log = append(log, eventLog(i, res)...)
 		prev = res.Stdout
 		info.Steps += len(res.Steps)
@@ -330,6 +372,7 @@ func checkC13(c C13Case) (*Violation, []string, *caseInfo) {
 		if v := checkProc13(i, p, res); v != nil {
 			if last {
 				// attribute: does the library alone panic on the same bytes?
+				libSched = c.Sched
 				if lv, _ := libDirect(artefact, target); lv != nil {
 					v.Detail += " | the library called directly panics too: " + lv.Detail
 				} else if v.Clause == "cli-panic" {
@@ -345,6 +388,7 @@ func checkC13(c C13Case) (*Violation, []string, *caseInfo) {
 		}
 		fmt.Fprintf(&sig, "=%d|", res.Code)
 		if last {
+			libSched = c.Sched
 			lv, lr := libDirect(artefact, target)
 			if lv != nil {
 				return lv, log, info
@@ -439,7 +483,7 @@ func genCase13(c *Chooser) C13Case {
 	np := len(cs.Procs)
 	// faults inside the producer: learn its steps from a fault-free dry run
 	if c.Chance(3, 10) {
-		dry := runProc(fsFromFiles(cs.Files, nil), producer, IOCfg{cs.Sector, cs.FileChunk, false, nil, cs.Clock}, nil)
+		dry := runProc(fsFromFiles(cs.Files, nil), producer, IOCfg{cs.Sector, cs.FileChunk, false, nil, cs.Clock, cs.Sched}, nil)
 		var cand []simos.Fault
 		for _, st := range dry.Steps {
 			for _, kind := range simos.Applicable(st.Kind) {
@@ -654,6 +698,7 @@ func genCase13(c *Chooser) C13Case {
 		// every deadline is already due when it is set
 		cs.Clock = simos.ClockPolicy{Mode: "expired"}
 	}
+	cs.Sched = c.U64()
 	sort.Strings(cs.Skew)
 	return cs
 }
@@ -710,7 +755,7 @@ func shrink13(raw json.RawMessage) []json.RawMessage {
 		var prev []byte
 		for i, p := range c.Procs[:len(c.Procs)-1] {
 			before := fs.Clone()
-			res := runProc(fs, p, IOCfg{c.Sector, c.FileChunk, false, c.Env, c.Clock}, prev)
+			res := runProc(fs, p, IOCfg{c.Sector, c.FileChunk, false, c.Env, c.Clock, c.Sched}, prev)
 			prev = res.Stdout
 			for _, df := range c.Disk {
 				if df.After == i {
